@@ -73,7 +73,10 @@ impl<'a> PrettyPrinter<'a> {
             return prefix_doc;
         }
 
-        let import_items_doc = self.convert_import_items(ctx, import_items_nodes);
+        // Reordering is off for the whole import as soon as it holds a comment anywhere,
+        // not only between the items.
+        let has_comment = has_comment_descendant(import.to_untyped());
+        let import_items_doc = self.convert_import_items(ctx, import_items_nodes, has_comment);
         prefix_doc + self.arena.space() + import_items_doc
     }
 
@@ -81,10 +84,12 @@ impl<'a> PrettyPrinter<'a> {
         &'a self,
         ctx: Context,
         mut import_items_nodes: Vec<&'a SyntaxNode>,
+        has_comment: bool,
     ) -> ArenaDoc<'a> {
         // Sort import items if the configuration allows it.
         // The sorting is only applied if all nodes are not comments and if there are no duplicate names.
         if self.config.reorder_import_items
+            && !has_comment
             && import_items_nodes.iter().all(|node| !is_comment_node(node))
             && check_import_name_duplication(&import_items_nodes)
         {
@@ -151,6 +156,11 @@ impl<'a> PrettyPrinter<'a> {
             }
         })
     }
+}
+
+fn has_comment_descendant(node: &SyntaxNode) -> bool {
+    node.children()
+        .any(|child| is_comment_node(child) || has_comment_descendant(child))
 }
 
 /// The text of an import item as it is printed (`a.b`, `a as b`): irregular inner blanks must
